@@ -326,18 +326,41 @@ class CallMixin(StmtMixin):
         st_n = st.assume(*[Not(cd) for cd in conds if cd is not False])
         if conds and not self.feasible(st_n):
             return
-        st_n = self.havoc_paths(st_n, c, binds)
-        res: Any = None
-        if c.result is not None:
-            st_n, res, inv = self.make(st_n, c.result, f"ret_{c.key.split(':')[-1].split('.')[-1]}")
-            st_n = st_n.assume(*inv)
-        env.st = st_n
-        env.set_result(res)
-        if c.ghost_exit is not None:
-            c.ghost_exit(env)
-        post = self.eval_clause_dict(c.ensures, env)
-        st_n = env.st.assume(*post.values())
-        yield st_n, res
+        st_h = self.havoc_paths(st_n, c, binds)
+        for tp in c.touches:
+            tv = binds.get(tp)
+            if isinstance(tv, Ref) and st_h.obj(tv).kind == "msg":
+                st_h = self.protomodel.touch(st_h, tv)
+        alts = self.result_alternatives(c.result) if c.result is not None else [None]
+        for alt in alts:
+            st_n = st_h
+            res: Any = None
+            if alt is not None:
+                st_n, res, inv = self.make(st_n, alt, f"ret_{c.key.split(':')[-1].split('.')[-1]}")
+                st_n = st_n.assume(*inv)
+            env_a = Env(self, st_n, binds)
+            object.__setattr__(env_a, "_old_heap", env._old_heap)
+            object.__setattr__(env_a, "_old_binds", env._old_binds)
+            env_a.set_result(res)
+            if c.ghost_exit is not None:
+                c.ghost_exit(env_a)
+            post = self.eval_clause_dict(c.ensures, env_a)
+            st_a = env_a.st.assume(*post.values())
+            if len(alts) > 1:
+                if not self.feasible(st_a):
+                    continue
+                st_a = st_a.with_note(f"L{line}:{c.key.split('.')[-1]}#{alts.index(alt)}")
+            yield st_a, res
+
+    def result_alternatives(self, sort: Sort) -> list:
+        if sort.kind == "rows_upto":
+            return [Sort("rows_exact", k) for k in range(sort.arg + 1)]
+        if sort.kind == "tup":
+            outs: list[list] = [[]]
+            for s in sort.arg:
+                outs = [o + [a] for o in outs for a in self.result_alternatives(s)]
+            return [Sort("tup", tuple(o)) for o in outs]
+        return [sort]
 
     def sort_invariant(self, st: State, sort: Sort, v: Any, node: Any) -> Any:
         if sort.kind == "nat" and V.is_int(v):
